@@ -1093,8 +1093,9 @@ func (t *Tree) Compile(file string, args []string, out io.Writer) (err error) {
 			label++
 			printBegin()
 			elements := slices.Collect(n.Iterator())
-			elements[0].SetParentDetect(n.ParentDetect())
-			elements[0].SetParentMultipleKey(n.ParentMultipleKey())
+			/* the character that selected a switch case may belong to any of the alternatives */
+			elements[0].SetParentDetect(false)
+			elements[0].SetParentMultipleKey(false)
 			printSave(ok)
 			for _, element := range elements[:len(elements)-1] {
 				next := label
@@ -1160,8 +1161,9 @@ func (t *Tree) Compile(file string, args []string, out io.Writer) (err error) {
 			printBegin()
 			printSave(ok)
 			element := n.Front()
-			element.SetParentDetect(n.ParentDetect())
-			element.SetParentMultipleKey(n.ParentMultipleKey())
+			/* what follows a lookahead selects the switch case, the lookahead still has to be checked */
+			element.SetParentDetect(false)
+			element.SetParentMultipleKey(false)
 			compile(element, ko)
 			printRestore(ok)
 			printEnd()
@@ -1171,8 +1173,8 @@ func (t *Tree) Compile(file string, args []string, out io.Writer) (err error) {
 			printBegin()
 			printSave(ok)
 			element := n.Front()
-			element.SetParentDetect(n.ParentDetect())
-			element.SetParentMultipleKey(n.ParentMultipleKey())
+			element.SetParentDetect(false)
+			element.SetParentMultipleKey(false)
 			compile(element, ok)
 			printJump(ko)
 			printLabel(ok)
@@ -1186,8 +1188,9 @@ func (t *Tree) Compile(file string, args []string, out io.Writer) (err error) {
 			printBegin()
 			printSave(qko)
 			element := n.Front()
-			element.SetParentDetect(n.ParentDetect())
-			element.SetParentMultipleKey(n.ParentMultipleKey())
+			/* the switch case may have been selected by what follows the optional element */
+			element.SetParentDetect(false)
+			element.SetParentMultipleKey(false)
 			compile(element, qko)
 			printJump(qok)
 			printLabel(qko)
@@ -1203,8 +1206,9 @@ func (t *Tree) Compile(file string, args []string, out io.Writer) (err error) {
 			printBegin()
 			printSave(out)
 			element := n.Front()
-			element.SetParentDetect(n.ParentDetect())
-			element.SetParentMultipleKey(n.ParentMultipleKey())
+			/* only the first iteration starts where the switch looked, and it may be skipped */
+			element.SetParentDetect(false)
+			element.SetParentMultipleKey(false)
 			compile(element, out)
 			printJump(again)
 			printLabel(out)
